@@ -171,6 +171,9 @@ func (r *MetricRegistry) RegisterDistribution(
 	ID string,
 	tags ...string,
 ) core.MetricSampleListener {
+	r.mu.Lock()
+	defer r.mu.Unlock()
+
 	if strings.HasPrefix(ID, ".") {
 		ID = strings.TrimPrefix(ID, ".")
 	}
@@ -194,6 +197,9 @@ func (r *MetricRegistry) RegisterTiming(
 	ID string,
 	tags ...string,
 ) core.MetricSampleListener {
+	r.mu.Lock()
+	defer r.mu.Unlock()
+
 	if strings.HasPrefix(ID, ".") {
 		ID = strings.TrimPrefix(ID, ".")
 	}
@@ -217,6 +223,9 @@ func (r *MetricRegistry) RegisterCount(
 	ID string,
 	tags ...string,
 ) core.MetricSampleListener {
+	r.mu.Lock()
+	defer r.mu.Unlock()
+
 	if strings.HasPrefix(ID, ".") {
 		ID = strings.TrimPrefix(ID, ".")
 	}
